@@ -33,6 +33,10 @@ pub struct IoStats {
   pub flushes: u64,
   #[serde(default)]
   pub vectored_calls: u64,
+  #[serde(default)]
+  pub reentered: u64,
+  #[serde(default)]
+  pub reenter_mismatch: u64,
 }
 
 pub struct SimWriter {
@@ -43,6 +47,7 @@ pub struct SimWriter {
   ok_calls: u32,
   burst_left: u32,
   serial: u64,
+  reentered: bool,
 }
 
 impl SimWriter {
@@ -55,6 +60,26 @@ impl SimWriter {
       ok_calls: 0,
       burst_left: 0,
       serial,
+      reentered: false,
+    }
+  }
+
+  /// A sink that renders something of its own with the library before it
+  /// accepts the first byte (a banner, a log line): the library is re-entered
+  /// on the same thread while the outer `to_writer` is inside `write`.
+  fn reenter(&mut self) {
+    use rspack_sources::{CachedSource, ConcatSource, RawStringSource, ReplaceSource, Source, SourceExt};
+    self.reentered = true;
+    self.stats.reentered += 1;
+    let mut r = ReplaceSource::new(RawStringSource::from("banner v0\n".to_string()));
+    r.replace(8, 9, "1", None);
+    r.insert(0, "// ", None);
+    let c = ConcatSource::new([r.clone().boxed(), RawStringSource::from("x".to_string()).boxed()]);
+    let k = CachedSource::new(r.clone());
+    let mut out: Vec<u8> = vec![];
+    let ok = r.to_writer(&mut out).is_ok() && c.to_writer(&mut out).is_ok() && k.to_writer(&mut out).is_ok();
+    if !ok || out != b"// banner v1\n// banner v1\nx// banner v1\n" {
+      self.stats.reenter_mismatch += 1;
     }
   }
 
@@ -79,6 +104,9 @@ impl Write for SimWriter {
     }
     if buf.is_empty() {
       return Ok(0);
+    }
+    if self.plan.reenter && !self.reentered {
+      self.reenter();
     }
     // EINTR bursts
     if self.burst_left > 0 {
